@@ -41,6 +41,17 @@ def gen_case(rng):
         else:
             cs = {'op': 'f_bloc', 'f': f, 'mask': [[rng.random() < 0.4 for _ in f['columns']] for _ in f['index']]}
         return cs, lay
+    if rng.random() < 0.12:
+        # a positional selection followed by a label selection on its result (the result of the first step must carry a working label map:
+        # after iloc[::2] on an auto-integer index the labels 0, 2, 4 are no longer the positions)
+        s = C.rand_series(rng, 7, index_kind=rng.choice(['auto', 'auto', 'int', 'str']), min_n=2)
+        auto_flags(rng, s)
+        n = len(s['index'])
+        k1 = rng.choice([['slice', ['none'], ['none'], ['i', 2]], ['slice', ['none'], ['none'], ['i', -1]], ['slice', ['i', 0], ['none'], ['i', 3]], ['slice', ['none'], ['i', n - 1], ['i', 2]],
+                         ['slice', ['i', 1], ['none'], ['none']], ['list', sorted(rng.sample(range(n), rng.randint(1, n)), reverse=rng.random() < 0.5)], ['mask', [rng.random() < 0.6 for _ in range(n)]]])
+        lab = rng.choice(s['index'])
+        k2 = rng.choice([['loc', lab], ['loc', lab], ['loclist', [lab]], ['locslice', ['none'], lab, ['none']]])
+        return {'op': 's_iloc_loc', 's': s, 'rk': k1, 'rk2': k2}, None
     s = C.rand_series(rng, 6, index_kind=rng.choice(['str', 'int', 'auto', 'intshift', 'date']))
     auto_flags(rng, s)
     op = rng.choice(['s_iloc', 's_loc', 's_getitem'])
